@@ -179,7 +179,8 @@ def replyTok : Reply → String
 def cfg : Cfg :=
   { callTypeFirst := Pyro.Gen.C02.callGateTypeFirst
     getPriv := Pyro.Gen.C02.getGatePrivate
-    setPriv := Pyro.Gen.C02.setGatePrivate }
+    setPriv := Pyro.Gen.C02.setGatePrivate
+    nonStrType := Pyro.Gen.C02.privateGateNonStrTypeError }
 
 def reqPart (sh : Shape) (q : Req) : String :=
   let (rep, eff) := dispatch cfg sh q
